@@ -1253,3 +1253,106 @@ func keysOfMap(m map[string]bool) []string {
 	sort.Strings(out)
 	return out
 }
+
+func init() {
+	old := All["C08"].Run
+	All["C08"].Run = func(c *an.Ctx) {
+		old(c)
+		c08extremeTieBreak(c)
+		c08fastPathOnlyNullFill(c)
+	}
+	All["C08"].Rules += " R8 R9"
+	addLevel("C08", "the mem-table statistics pick min/max with the tie-break `equal value ⇒ earlier time` (rows arrive in either time order); the fill operator passes a chunk through unchanged only for fill(null).")
+}
+
+// c08extremeTieBreak — C08.R8.  min()/max() return the time of the extreme; when the extreme value
+// occurs at several timestamps the earliest wins, in the file statistics and in the mem-table
+// statistics alike.  The mem-table rows arrive in descending order for ORDER BY time DESC, so a
+// bare `v < min` keeps the latest of the tied points: the selection condition must be
+// `strictly better ∨ (equal ∧ earlier)`.
+func c08extremeTieBreak(c *an.Ctx) {
+	r := c.Rule("C08.R8", "K-PREDSHAPE(siblings)", "engine:(*recordIter).set{Int,Float}ColumnMeta — min and max are replaced when the value is strictly better OR equal with an earlier time")
+	for _, spec := range []string{"engine:recordIter.setIntColumnMeta", "engine:recordIter.setFloatColumnMeta"} {
+		f := fn(r, spec)
+		if f == nil {
+			continue
+		}
+		strict, tie := 0, 0
+		ast.Inspect(f.Body, func(m ast.Node) bool {
+			is, ok := m.(*ast.IfStmt)
+			if !ok {
+				return true
+			}
+			// the body replaces a running extreme: an assignment whose value is the compared element
+			var cmp *ast.BinaryExpr
+			hasTie := false
+			var walk func(e ast.Expr)
+			walk = func(e ast.Expr) {
+				be, ok := ast.Unparen(e).(*ast.BinaryExpr)
+				if !ok {
+					return
+				}
+				switch be.Op.String() {
+				case "||", "&&":
+					walk(be.X)
+					walk(be.Y)
+				case "<", ">":
+					if cmp == nil {
+						cmp = be
+					}
+				case "==":
+					if cmp != nil && ((f.Canon(be.X) == f.Canon(cmp.X) && f.Canon(be.Y) == f.Canon(cmp.Y)) || (f.Canon(be.X) == f.Canon(cmp.Y) && f.Canon(be.Y) == f.Canon(cmp.X))) {
+						hasTie = true
+					}
+				}
+			}
+			walk(is.Cond)
+			if cmp == nil {
+				return true
+			}
+			// does the body assign one of the compared operands (the running extreme)?
+			replaces := false
+			for _, st := range is.Body.List {
+				if as, ok := st.(*ast.AssignStmt); ok {
+					for _, l := range as.Lhs {
+						if lc := f.Canon(l); lc == f.Canon(cmp.X) || lc == f.Canon(cmp.Y) || types.ExprString(l) == types.ExprString(cmp.X) || types.ExprString(l) == types.ExprString(cmp.Y) {
+							replaces = true
+						}
+					}
+				}
+			}
+			if !replaces {
+				return true
+			}
+			strict++
+			if hasTie {
+				tie++
+			} else {
+				r.Fail(f.Name+": extreme replaced without the tie-break", c.P.Pos(is.Pos()), "%s replaces a running extreme on `%s` alone: with equal values the point seen first wins, which is the LATEST one when the rows arrive in descending time order (the file statistics keep the earliest)", f.Name, types.ExprString(is.Cond))
+			}
+			return true
+		})
+		r.AddSites(strict)
+		if strict < 2 {
+			r.Fail(f.Name+": shape", c.P.Pos(f.Body.Pos()), "expected the min and the max selection (two conditional replacements of a running extreme), found %d", strict)
+		}
+		_ = tie
+	}
+}
+
+// c08fastPathOnlyNullFill — C08.R9.  FillTransform sends a chunk on unchanged when it already has
+// a row for every window.  That is only right for fill(null): with fill(<number>),
+// fill(previous) or fill(linear) the null CELLS of existing rows still have to be filled.
+func c08fastPathOnlyNullFill(c *an.Ctx) {
+	const X = "engine/executor"
+	r := c.Rule("C08.R9", "K-GUARD", X+":(*FillTransform).fill — the unprocessed chunk is sent on only when the fill mode is fill(null)")
+	f := fn(r, X+":FillTransform.fill")
+	if f == nil {
+		return
+	}
+	send := f.Find(an.MNode("Outputs[0].State <- trans.bufChunk", func(g *an.Fn, m ast.Node) bool {
+		ss, ok := m.(*ast.SendStmt)
+		return ok && g.Canon(ss.Value) == "recv.bufChunk"
+	}))
+	f.Guarded(r, send, "pass-through only for fill(null)", an.AtomLike(`^(influxql\.NullFill==recv\.opt\.Fill|recv\.opt\.Fill==influxql\.NullFill)$`, true))
+}
